@@ -38,8 +38,9 @@ impl Palette {
             let height = index_grid.height();
             (0..height).all(|y| {
                 let row = index_grid.get_row(y);
+                // Explicit delta entries need prediction, which the fast path doesn't do.
                 row.iter()
-                    .all(|&index| (0..nb_colors).contains(&index.to_i32()))
+                    .all(|&index| (nb_deltas..nb_colors).contains(&index.to_i32()))
             })
         };
 
